@@ -340,16 +340,58 @@ func checkC03(w *World, r *Report) {
 			okBal := balCalls == 1 && len(names) == 1 && names[0] == mainAcc
 			r.Check(okBal, "C03.inflow", "minuend = balance of the distributor main account", w.Pos(first.Pos()), "GetAllBalances(address of "+mainAcc+")", fmt.Sprintf("the minuend is not the main account's balance (accounts: %v)", names))
 			okSum := false
+			why := "the sum subtracted does not cover the full state list"
+			fullList := func(c *ssa.Call) bool {
+				// argument: &states where states is a []State parameter, not a sub-slice
+				o := t.Origins(c.Common().Args[0])
+				isParamList := false
+				for _, l := range o.Leaves {
+					if l.Kind == "param" && strings.HasSuffix(typeString(l.V.Type()), "types.State") {
+						isParamList = true
+					}
+				}
+				return isParamList && !sliceOnPath(o)
+			}
 			for _, sv := range subtrahends {
 				if c, ok := sv.(*ssa.Call); ok && strings.HasSuffix(callName(c.Common()), "keeper.getRamainsSum") {
-					// argument: &states where states is the parameter, not a sub-slice
-					o := t.Origins(c.Common().Args[0])
-					if o.HasLeaf("param", "states") && !sliceOnPath(o) {
+					if fullList(c) {
+						okSum = true
+					}
+				}
+				// the sum handed in by the caller: it must be computed in the same loop iteration, because the
+				// other source branches take remains out of the list in place (prepareLeftCoinToDistribute)
+				if p, ok := sv.(*ssa.Parameter); ok {
+					idx := -1
+					for i, x := range fn.Params {
+						if x == p {
+							idx = i
+						}
+					}
+					all := len(cg.Callers[fn]) > 0
+					for _, cs := range cg.Callers[fn] {
+						arg := cs.Common().Args[idx]
+						c, isCall := arg.(*ssa.Call)
+						if !isCall || !strings.HasSuffix(callName(c.Common()), "keeper.getRamainsSum") || !fullList(c) {
+							all = false
+							continue // another subtrahend (e.g. what was already collected)
+						}
+						inLoop := false
+						for _, l := range rangeLoops(cs.Caller) {
+							if l.Body.Dominates(c.Block()) {
+								inLoop = true
+							}
+						}
+						if !inLoop {
+							all = false
+							why = "the remains sum is computed before the source loop, but earlier sources take their recorded remains out of the list in place: listed before MAIN, their remains are subtracted twice (stale sum)"
+						}
+					}
+					if all {
 						okSum = true
 					}
 				}
 			}
-			r.Check(okSum, "C03.inflow", "subtrahend = sum of the remains of the full state list", w.Pos(sub.Pos()), "getRamainsSum(&states) of the parameter", "the sum subtracted does not cover the full state list")
+			r.Check(okSum, "C03.inflow", "subtrahend = sum of the remains of the full, current state list", w.Pos(sub.Pos()), "getRamainsSum(&states) evaluated when the Main source is processed", why)
 		}
 		// getRamainsSum sums every element's Remains
 		loops := rangeLoops(a.remSum)
@@ -676,6 +718,63 @@ func checkC14(w *World, r *Report) {
 		return
 	}
 	successRule(w, r, "C14.success")
+	// direction of the pay-outs: out of the main account, to the state's own account
+	r.Rule("C14.direction", "P4,P6", "every pay-out moves coins out of the distributor main account to the account recorded in the state (module name / parsed address of state.Account.Id); the burn burns from the main account", 3)
+	mainAcc, _ := constOf(w, "x/cfedistributor/types", "DistributorMainAccount")
+	for _, anchor := range []string{"x/cfedistributor/keeper.Keeper.burnCoins", "x/cfedistributor/keeper.Keeper.sendCoinsToModuleAccount", "x/cfedistributor/keeper.Keeper.sendCoinsToBaseAccount"} {
+		fn := w.Func(anchor)
+		if fn == nil {
+			continue
+		}
+		for _, s := range cg.Sites[fn] {
+			if len(s.Callees) != 1 {
+				continue
+			}
+			below := cg.targetsBelow(s.Callees[0], func(x *Site) bool { a := cg.Atom(x); return a == BankMove || a == BankBurn }, map[*ssa.Function]bool{})
+			if len(below) != 1 {
+				continue
+			}
+			atom := below[0]
+			wrapper := s.Callees[0]
+			// map the atom's module/address arguments back to this call's arguments
+			argOfParam := func(v ssa.Value) ssa.Value {
+				if p, ok := v.(*ssa.Parameter); ok {
+					for i, x := range wrapper.Params {
+						if x == p && i < len(s.Common().Args) {
+							return s.Common().Args[i]
+						}
+					}
+				}
+				return v
+			}
+			var srcs, dsts []ssa.Value
+			aa := atom.Args()
+			switch atom.Method {
+			case "BurnCoins":
+				srcs = []ssa.Value{argOfParam(aa[1])}
+			case "SendCoinsFromModuleToModule", "SendCoinsFromModuleToAccount":
+				srcs = []ssa.Value{argOfParam(aa[1])}
+				dsts = []ssa.Value{argOfParam(aa[2])}
+			default:
+				r.Bad("C14.direction", funcName(fn)+": pay-out operation", w.Pos(s.Instr.Pos()), "unexpected bank operation "+atom.Method)
+				continue
+			}
+			okSrc := len(srcs) == 1
+			for _, v := range srcs {
+				if c, ok := EvalString(v); !ok || c != mainAcc {
+					okSrc = false
+				}
+			}
+			okDst := true
+			for _, v := range dsts {
+				o := w.Tracer().Origins(v)
+				if !o.HasPath("Account.Id") || o.HasLeaf("const", mainAcc) {
+					okDst = false
+				}
+			}
+			r.Check(okSrc && okDst, "C14.direction", funcName(fn)+": from the main account to the state's account", w.Pos(s.Instr.Pos()), atom.Method+"(main account -> state.Account.Id)", "the pay-out does not move coins from the distributor main account to the account recorded in the state")
+		}
+	}
 	// ---------- C14.sweep ----------
 	for _, anchor := range []string{"x/cfedistributor/keeper.Keeper.prepareCoinToDistributeForModuleAccount", "x/cfedistributor/keeper.Keeper.prepareCoinToDistributeForBaseAccount"} {
 		fn := w.Func(anchor)
